@@ -127,6 +127,15 @@ func (e *cellEnv) intUnder(v ssa.Value, depth int) (lin, bool) {
 	if depth > 12 {
 		return lin{}, false
 	}
+	// a helper or closure that computes the number: evaluate it under the assignment (before
+	// value resolution looks through it and lands on a phi of ITS paths)
+	if c, ok := v.(*ssa.Call); ok && !c.Call.IsInvoke() {
+		if callee := rawStaticCallee(c); callee != nil && len(callee.Blocks) > 0 && gp != nil && gp.inMod(callee) {
+			if r, ok := e.fnResultUnder(originFn(callee), depth+1); ok {
+				return r, true
+			}
+		}
+	}
 	v = strip(v)
 	if k, ok := constInt(v); ok {
 		return lin{k, 0}, true
